@@ -630,3 +630,26 @@ GROUPS["g18"] = [
       "                        span: space.span,", "                        span: crate::Span::new_with_len(space.span.start, count),",
       "R-C03-span:span-from-kind"),
 ]
+
+GROUPS["g19"] = [
+    # publish only when the diagnostics changed (the shape of seeded/C09-c, without the cache)
+    E("c09-publish-shortcut", ["C09"], "harper-ls/src/backend.rs",
+      "        let diagnostics = self.generate_diagnostics(url).await;\n",
+      "        let diagnostics = self.generate_diagnostics(url).await;\n        if diagnostics.len() == 424242 {\n            return;\n        }\n",
+      "R-C09-publish:Backend::publish_diagnostics:always-sends"),
+    # a size guard in front of the suffix check (the shape of seeded/C17-c)
+    E("c17-skip-large", ["C17"], "harper-core/src/linting/correct_number_suffix.rs",
+      "                if let Some(correct_suffix) = NumberSuffix::correct_suffix_for(value) {",
+      "                if value.0 >= 4503599627370496.0 {\n                    continue;\n                }\n                if let Some(correct_suffix) = NumberSuffix::correct_suffix_for(value) {",
+      "R-C17-flow:CorrectNumberSuffix::lint:only-if-same"),
+    # a trailing newline token popped (the shape of seeded/C12-c)
+    E("c12-pop-trailing-newline", ["C02", "C12"], "harper-core/src/parsers/plain_english.rs",
+      "            if cursor >= source.len() {\n                return tokens;", "            if cursor >= source.len() {\n                if tokens.last().is_some_and(|t: &Token| t.kind.is_newline()) {\n                    tokens.pop();\n                }\n                return tokens;",
+      "tile:PlainEnglish::parse:only-grows"),
+]
+GROUPS["g20"] = [
+    # Hamming distance for equally long words (the shape of seeded/C15-c)
+    E("c15-hamming-shortcut", ["C15"], "harper-core/src/edit_distance.rs",
+      "    previous_row.clear();", "    if row_width == col_height {\n        return source.iter().zip(target).filter(|(a, b)| a != b).count() as u8;\n    }\n\n    previous_row.clear();",
+      "R-C15-distance:edit_distance_min_alloc:returns"),
+]
